@@ -451,8 +451,53 @@ def check_forms(res):
     return msgs
 
 
+HIST_MENU = [
+    ("ksingle", (0.99, 0.9, 21), {}), ("kdouble", (0.99, 0.9, 21), {}), ("kdouble", (0.99, 0.9, 21), {"tol": 1e-3}), ("kdouble", (0.99, 0.9, 21), {"tol": 1e-1}),
+    ("kdouble", (0.9, 0.5, [3, 21]), {}), ("kdouble", (0.9, 0.5, [3, 21]), {"tol": 1e-2}), ("order_r", (), dict(p=0.99, c=0.9, n=700)),
+    ("order_n", (), dict(p=0.99, c=0.9, r=4)), ("order_c", (), dict(p=0.99, n=700, r=4)), ("order_p", (), dict(c=0.9, n=700, r=4)),
+]
+
+
+def _hist_call(i):
+    from pyyeti import stats
+
+    name, args, kw = HIST_MENU[i]
+    if name.startswith("order_"):
+        return np.asarray(stats.order_stats(name[-1], **kw), float)
+    return np.asarray(getattr(stats, name)(*args, **kw), float)
+
+
+def check_call_history(res, maxlen):
+    """K2 over the module: EVERY sequence of up to `maxlen` calls from a menu (same arguments with different `tol`, scalar
+    and array forms, all order_stats modes); each result must be bit-identical to the same call made first in a
+    pristine process (no result may depend on what was computed before)"""
+    from vf.core import fresh_eval
+
+    msgs = []
+    first = [fresh_eval(_hist_call, i) for i in range(len(HIST_MENU))]
+    for n in range(2, maxlen + 1):
+        for seq in itertools.product(range(len(HIST_MENU)), repeat=n):
+            if n == 3 and len(set(seq)) == 1:
+                continue
+            ok = True
+            for step, i in enumerate(seq):
+                got = _hist_call(i)
+                res.transitions += 1
+                if got.shape != first[i].shape or got.tobytes() != first[i].tobytes():
+                    msgs.append((list(seq), "call %d of the history %s (%s%s %s) returns %s; the same call made first in a fresh process returns %s"
+                                 % (step + 1, [HIST_MENU[j][0] + str(HIST_MENU[j][2] or "") for j in seq], HIST_MENU[i][0], HIST_MENU[i][1], HIST_MENU[i][2], got.tolist(), first[i].tolist())))
+                    ok = False
+                    break
+            res.traces += 1
+            if len(msgs) > 5:
+                return msgs
+    res.states += len(HIST_MENU) ** min(maxlen, 2)
+    res.ev("call-history", n=0)
+    return msgs
+
+
 def shards(tier, seed):
-    out = [dict(part="forms")]
+    out = [dict(part="forms"), dict(part="callhist", maxlen=2 if tier == "quick" else 3)]
     ns = nlist(tier)
     for p, c in itertools.product(P, P):
         for part in ("ksingle", "kdouble", "order_r"):
@@ -489,6 +534,9 @@ def _run(sh, res):
         return check_monotone(sh["ns"], res)
     if part == "forms":
         return check_forms(res)
+    if part == "callhist":
+        m = check_call_history(res, sh["maxlen"])
+        return [("hist", t) for seq, t in m if "seq" not in sh or seq == list(sh["seq"])]
     return check_order_r_broadcast(sh["ns"], res)
 
 
